@@ -32,6 +32,7 @@ mod snapshot;
 mod cindex;
 mod cidecho;
 mod wire;
+mod rxpn;
 mod inject;
 mod txlog;
 mod multi;
@@ -121,6 +122,7 @@ fn registry(name: &str) -> Option<Ctor> {
         "dgram" => || Box::new(dgram::DgramC::new()),
         "mtud" => || Box::new(mtud::MtudC::new()),
         "streams" => || Box::new(streams::StreamsC::new()),
+        "rxpn" => || Box::new(rxpn::RxPnC),
         _ => return None,
     })
 }
